@@ -44,6 +44,8 @@ def strict_reads(ctx: Ctx, rule: str) -> None:
     for name, width in prims.items():
         f = ctx.prog.func("archiveinfo", name)
         reads = [c for c in q.calls(f) if attr_tail(c) == "read" and c.args and isinstance(c.args[0], ast.Constant) and c.args[0].value == width]
+        # or through the completing read of helpers (a multi-volume file may answer short where it changes volume): same width, still strict - unpack raises on fewer bytes
+        reads += [c for c in q.calls(f) if (dotted(c.func) or "").split(".")[-1] == "read_fully" and len(c.args) == 2 and isinstance(c.args[1], ast.Constant) and c.args[1].value == width]
         if not reads:
             ctx.fail(rule, f, f.node, f"{name} no longer reads exactly {width} byte(s)", construct=f"{name} read width")
             continue
